@@ -925,6 +925,9 @@ fn check_to_payload(p: &pdu::Payload, spec: &PduSpec) -> CheckResult {
         (Ok((action, item)), Some(exp)) => {
             ensure!(action == exp_action, "to_payload of {:?}: action {:?}, expected {:?}", spec, action, exp_action);
             ensure!(item == exp, "to_payload of {:?}: item {:?}, expected {:?}", spec, item, exp);
+            if let Err(e) = same_item(&item, &exp) {
+                return Err(Fail::sig("c07:item-not-interchangeable", format!("to_payload of {:?}: {}", spec, e)));
+            }
             if let (pl::Payload::Origin(a), pl::Payload::Origin(b)) = (&item, &exp) {
                 ensure!(
                     a.prefix.prefix() == b.prefix.prefix() && a.prefix.resolved_max_len() == b.prefix.resolved_max_len() && a.asn == b.asn,
@@ -1321,6 +1324,28 @@ fn build_item(i: &ItemSpec) -> Result<pl::Payload, Fail> {
     })
 }
 
+/// "Yields the same item": equal, and interchangeable wherever a receiver keeps items - the
+/// same hash (a withdrawal must find the announced entry in a hash set), `cmp` Equal (a
+/// sorted set), not unequal.
+fn same_item(got: &pl::Payload, exp: &pl::Payload) -> Result<(), String> {
+    use std::hash::{Hash, Hasher};
+    if got != exp || !(got == exp) {
+        return Err(format!("item {:?}, expected {:?}", got, exp));
+    }
+    let h = |p: &pl::Payload| {
+        let mut h = std::collections::hash_map::DefaultHasher::new();
+        p.hash(&mut h);
+        h.finish()
+    };
+    if h(got) != h(exp) {
+        return Err(format!("item {:?} equals the expected {:?} but hashes differently", got, exp));
+    }
+    if got.cmp(exp) != std::cmp::Ordering::Equal || got.partial_cmp(exp) != Some(std::cmp::Ordering::Equal) {
+        return Err(format!("item {:?} equals the expected {:?} but does not compare Equal", got, exp));
+    }
+    Ok(())
+}
+
 /// The item a receiver must end up with.
 fn expected_item(item: &pl::Payload, flags: u8) -> pl::Payload {
     match item {
@@ -1381,6 +1406,12 @@ fn run_payload(c: &PayCase, obs: &mut Obs) -> CheckResult {
     }
     let exp = expected_item(&item, c.flags);
     ensure!(got == exp, "item after the wire {:?}, expected {:?}", got, exp);
+    if let Err(e) = same_item(&got, &exp) {
+        return Err(Fail::sig("c07:item-not-interchangeable", format!("after the wire: {}", e)));
+    }
+    if let pl::Payload::Origin(o) = &exp {
+        obs.label_if(o.prefix.max_len().is_none(), "origin-implicit-max-len");
+    }
     if let (pl::Payload::Origin(a), pl::Payload::Origin(b)) = (&got, &exp) {
         ensure!(
             a.prefix.prefix() == b.prefix.prefix() && a.prefix.resolved_max_len() == b.prefix.resolved_max_len() && a.asn == b.asn,
